@@ -895,3 +895,43 @@ def print0_pipe(w, repo):
             rc, out, err = run([find_bin(repo), base, "-name", "-n", "-print"], cwd=d)
             res.append(("find %s -name -n -print: %r" % (base, out), out == ((base if base.endswith("/") else base + "/") + "-n\n").encode()))
     return _battery(res)
+
+
+def printf_paths(w, repo):
+    """exact-ish: run the witness format (or a battery of path directives) over a small tree for each spelling of the starting point;
+    the reference is computed from the spelling and the names"""
+    if not build(repo):
+        return None, "build failed"
+    fmts = [w["format"]] if w.get("format") else []
+    fmts += ["%p", "%P", "%f", "%h", "[%5f]", "[%-5f]", "%d"]       # %H: only when the witness asks for it (known finding F-C16-H)
+    dev = []
+    with Sandbox() as d:
+        os.makedirs(os.path.join(d, "r", "d e"))
+        open(os.path.join(d, "r", "d e", "-x"), "w").close()
+        os.makedirs(os.path.join(d, "r x"))
+        for start in ([w["start"]] if w.get("start") in ("r", "./r/", "r x") else []) + ["r", "./r/", "r x"]:
+            top = start.rstrip("/")
+            ents = [(start, 0)] if start != "r x" else [(start, 0)]
+            if top.endswith("r") and "x" not in start:
+                j = start if start.endswith("/") else start + "/"
+                ents += [(j + "d e", 1), (j + "d e/-x", 2)]
+            for fmt in fmts:
+                if any(c in fmt for c in "\\") or "%%" in fmt:
+                    continue
+                rc, out, err = run([find_bin(repo), start, "-sorted", "-printf", fmt + "\n"], cwd=d)
+                lines = out.decode(errors="replace").split("\n")[:-1]
+                want = []
+                for p, depth in ents:
+                    last = p.rstrip("/").rsplit("/", 1)
+                    vals = {"p": p, "H": start, "P": p[len(start):].lstrip("/") if depth else "", "f": last[-1], "h": (last[0] if len(last) == 2 else "."), "d": str(depth)}
+                    import re as _re
+                    def sub(mo):
+                        v = vals[mo.group(3)]
+                        wd = int(mo.group(2) or 0)
+                        return v.ljust(wd) if mo.group(1) else v.rjust(wd)
+                    want.append(_re.sub(r"%(-?)(\d*)([pHPfhd])", sub, fmt))
+                if lines != want or rc != 0:
+                    dev.append("find %s -printf %r: %r, expected %r" % (start, fmt, lines, want))
+    if dev:
+        return True, "; ".join(dev[:3])
+    return None, "path directives behave like the reference for the spellings tried"
